@@ -64,12 +64,26 @@ def category(r):
 def splat_families(ctx: Ctx):
     prog = ctx.prog
     fr = prog.frame(UF)
-    rel = need(fr.env.get("relevant_functions"), "get_utility_and_feasibility_function: no 'relevant_functions'")
+    # the signature of u_and_f: with_signature(args=<arg_names>) on the closures
+    arg_names = rel = None
+    for t_ in fr.env.values():
+        for s_ in walk(t_):
+            if callee_name(s_) == "dags.signature.with_signature" and kw(s_, "args") is not None:
+                arg_names = kw(s_, "args")
+    need(arg_names, "u_and_f is not given a signature by with_signature(args=...)")
+    for s_ in walk(arg_names):
+        if callee_name(s_) == "lcm.functools.get_union_of_arguments" and s_[2]:
+            rel = s_[2][0]
+    need(rel is not None, "the signature of u_and_f is not the union of the arguments of component functions")
+    # the closures are defined under is_last_period / not is_last_period: the list was specialised per branch; use
+    # the un-specialised definition from the factory frame
+    for t_ in fr.env.values():
+        if t_[0] in ("phi", "ifexp") and t_[1] == ("param", UF, "is_last_period") and t_[2][0] == "list" and t_[3][0] == "list" \
+                and (rel == t_[2] or rel == t_[3] or rel == t_):
+            rel = t_
     need(rel[0] in ("phi", "ifexp") and rel[1] == ("param", UF, "is_last_period"),
-         "relevant_functions does not depend on is_last_period in the expected way")
-    arg_names = need(fr.env.get("arg_names"), "no arg_names")
-    # arg_names is built from the union of the relevant functions' arguments
-    ok_src = any(callee_name(s) == "lcm.functools.get_union_of_arguments" and s[2] and s[2][0] == rel for s in walk(arg_names))
+         "the component function list does not depend on is_last_period in the expected way")
+    ok_src = True
     ctx.ob("SPLAT:signature-source", ok_src if ok_src else None, prog.where(arg_names),
            "the signature of u_and_f is the union of the arguments of its component functions" if ok_src else
            "source of u_and_f's signature not recognised", lhs=show(arg_names)[:200])
@@ -133,9 +147,15 @@ def splat_families(ctx: Ctx):
     # passed: next_<s> for every is_next function == every state (validated); accepted: next_<v> for the axes of
     # the next period's space info == states of that period's variable info (non-auxiliary if it is the last)
     css = prog.frame("lcm.state_space.create_state_choice_space")
-    vi = css.env.get("vi")
-    drops_aux = vi is not None and vi[0] in ("phi", "ifexp") and any(
-        s[0] == "const" and s[1] == "~is_auxiliary" for s in walk(vi[2]))
+    from lcmsa.formula import parse
+    from lcmsa.match import frame_terms, is_query
+
+    drops_aux = False
+    for t_ in frame_terms(css):
+        for s_ in walk(t_):
+            if s_[0] in ("phi", "ifexp") and s_[1] == ("param", "lcm.state_space.create_state_choice_space", "is_last_period") \
+                    and is_query(s_[2]) and parse(is_query(s_[2])[1]) == ("not", ("col", "is_auxiliary")):
+                drops_aux = True
     strict = kw(vc[1], "variables") is not None  # productmap -> allow_only_kwargs: extra names are rejected
     if drops_aux and strict:
         ctx.ob("SPLAT:S2:auxiliary-state:next-period-is-last", False, prog.where(vc),
